@@ -292,16 +292,35 @@ class CGen(upp.ProblemGen):
         return out
 
     def problem(self, name="p"):
+        if not self.numeric:
+            self.invariants = False      # ProblemGen's own invariants are numeric
         ps = upp.ProblemGen.problem(self, name)
         for j, sec in enumerate(ps):
             if isinstance(sec, list) and sec and sec[0] == "traj":
                 tr = sec[1:]
                 if self.inv and self.rng.random() < 0.3:
-                    tr = tr + simlib.extra_invariants(self.rng, self)
-                if not self.numeric:
-                    tr = [t for t in tr if "(le " not in sexp.dumps(t)]
+                    try:
+                        tr = tr + simlib.extra_invariants(self.rng, self)
+                    except KeyError:
+                        pass
                 ps[j] = ["traj"] + tr + self.traj_constraints()
         return ps
+
+
+def _forall_var_vanishes(P):
+    """a forall effect whose bound variable no longer occurs once fluent / value / condition are simplified: the
+    simulator's grounding (create_effect_with_given_subs + Effect.__init__) then drops the quantifier, i.e. the
+    multiplicity of the instances (C01's reading of the grounder contract); kept out"""
+    fve = P.environment.free_vars_oracle
+    for a in P.actions:
+        for e in a.effects:
+            if e.is_forall():
+                free = set()
+                for x in (e.fluent, e.value.simplify(), e.condition.simplify()):
+                    free |= set(fve.get_free_variables(x))
+                if not all(v in free for v in e.forall):
+                    return True
+    return False
 
 
 def _initial_ok(P):
@@ -386,7 +405,7 @@ def gen_case(rng, comp, depth):
     except Exception:
         return None
     try:
-        if not supports(comp, P) or not relevant(comp, P) or not _initial_ok(P):
+        if not supports(comp, P) or not relevant(comp, P) or not _initial_ok(P) or _forall_var_vanishes(P):
             return None
     except Exception:
         return None
@@ -758,6 +777,13 @@ _cache = {}
 LIMITS = {"paths": 1500, "orig": 60, "states": 60, "secs": 20}
 
 
+def set_tier(tier):
+    if tier == "quick":
+        LIMITS.update({"paths": 1500, "orig": 60})
+    else:
+        LIMITS.update({"paths": 6000, "orig": 200})
+
+
 def analyse(payload):
     key = sexp.dumps(payload)
     if key in _cache:
@@ -803,6 +829,7 @@ def _analyse(payload, an):
         # documented refusals (TrajectoryConstraintsRemover: "PROBLEM NOT SOLVABLE", ConditionalEffectsRemover on a
         # conditional timed effect, ...).  The completeness clause still applies: see below
         an.tags.add("compile-refused")
+        P, _ = upp.build_problem(ps)
         exo = Explorer(P)
         if exo.init is not None:
             for seq, ks in exo.paths(k, LIMITS["paths"]):
@@ -979,4 +1006,113 @@ def variants(payload):
     out.sort(key=sexp.dumps)
     goals = sorted((upx.enc_expr(g, sort_vars=True) for g in Q.goals), key=sexp.dumps)
     traj = sorted((upx.enc_expr(t, sort_vars=True) for t in Q.trajectory_constraints), key=sexp.dumps)
-    return ["compiled", ["variants"] + out, ["goals"] + goals, ["traj"] + traj]
+    init = []
+    em = Q.environment.expression_manager
+    for f in Q.fluents:
+        doms = [list(Q.objects(p.type)) if p.type.is_user_type() else [] for p in f.signature]
+        for combo in product(*doms):
+            v = Q.initial_value(em.FluentExp(f, tuple(em.ObjectExp(o) for o in combo)))
+            init.append([f.name, [o.name for o in combo], "undef" if v is None else upx.enc_val(v)])
+    init.sort(key=sexp.dumps)
+    return ["compiled", ["variants"] + out, ["goals"] + goals, ["traj"] + traj, ["init"] + init]
+
+
+# ------------------------------------------------------------------------------------------------
+# known findings: cause predicates over cases (DESIGN 2.7) -- shared by C06.py / C07.py
+# ------------------------------------------------------------------------------------------------
+
+def chain(comp):
+    """the single compilers a case runs (TrajectoryConstraintsRemover grounds first)"""
+    names = [comp] if comp in SINGLE else list(PIPES[comp])
+    out = []
+    for n in names:
+        if n == "tcr":
+            out.append("grounder")
+        out.append(n)
+    return out
+
+
+def _actions(ps):
+    return upp.get(ps, "actions")
+
+
+def _same_fluent_assignments(ps, pred):
+    """some action has two assignment effects to one fluent symbol `pred` accepts, with syntactically different
+    values or with a value that is not a constant"""
+    for a in _actions(ps):
+        effs = [e for e in a[4][1:] if e[1] == "assign" and pred(e[2][1])]
+        for i in range(len(effs)):
+            for j in range(i + 1, len(effs)):
+                if effs[i][2][1] == effs[j][2][1]:
+                    vi, vj = effs[i][3], effs[j][3]
+                    if vi != vj or vi[0] not in ("b", "i", "r", "o"):
+                        return True
+    return False
+
+
+def cause_overlapping_disjuncts(payload):
+    """D-C06b: a conditional increase/decrease whose condition has a DNF with >= 2 disjuncts"""
+    if "dcr" not in chain(payload[1]):
+        return False
+    from unified_planning.model.walkers import Dnf
+    P, _ = upp.build_problem(payload[3])
+    if "qr" in chain(payload[1]):
+        # the disjunction may come out of an expanded Exists
+        P = make_compiler("qr").compile(P).problem
+    d = Dnf(P.environment)
+    for a in P.actions:
+        for e in a.effects:
+            if e.is_conditional() and not e.is_assignment():
+                if d.get_dnf_expression(e.condition).simplify().is_or():
+                    return True
+    return False
+
+
+def cause_bool_add_and_delete(payload):
+    """D-C06c: NegativeConditionsRemover on an action that assigns one Boolean fluent by two effects (add-after-delete
+    gives `f` and its complementary fluent the same value)"""
+    return "ncr" in chain(payload[1]) and _same_fluent_assignments(payload[3], lambda ref: ref[1] == "bool")
+
+
+def cause_object_fluent_conflict(payload):
+    """D-C06d: UsertypeFluentsRemover on an action that assigns one object fluent by two effects"""
+    return "utf" in chain(payload[1]) and _same_fluent_assignments(
+        payload[3], lambda ref: isinstance(ref[1], list) and ref[1][0] == "user")
+
+
+def cause_undefined_conditional(payload):
+    """D-C06e: UndefinedInitialNumericRemover on a conditional effect that reads or writes a numeric fluent without
+    initial value"""
+    if "uin" not in chain(payload[1]):
+        return False
+    ps = payload[3]
+    undef = set()
+    for ref, d in upp.get(ps, "fluents"):
+        if d == "_" and isinstance(ref[1], list) and ref[1][0] in ("int", "real"):
+            undef.add(ref[0])
+    if not undef:
+        return False
+    for a in _actions(ps):
+        for e in a[4][1:]:
+            if e[4] != ["b", "T"]:
+                names = {r[0] for r in upx.free_names(["and", e[2], e[3]])["fl"]}
+                if names & undef:
+                    return True
+    return False
+
+
+def cause_coinciding_values(payload):
+    """D-C07b: two assignments to one non-Boolean fluent in one action: statically conflicting effects make the
+    grounder / the conditional-effects remover drop the instance, although the values may coincide at run time"""
+    ch = chain(payload[1])
+    return ("grounder" in ch or "cer" in ch) and _same_fluent_assignments(payload[3], lambda ref: ref[1] != "bool")
+
+
+def cause_noop_step(payload):
+    """D-C07: the uncovered original plan contains a step that changes nothing (the variant without effects is pruned
+    by the conditional-effects / disjunctive-conditions removers)"""
+    ch = chain(payload[1])
+    if "cer" not in ch and "dcr" not in ch:
+        return False
+    an = analyse(payload)
+    return bool(an.c07) and bool(getattr(an, "c07_noop", False))
